@@ -80,3 +80,23 @@ Proof.
 Qed.
 Lemma api_open_after_write d : api_open (psd_after_write d) = api_open d.
 Proof. unfold api_open. now rewrite api_records_after_write. Qed.
+
+(* re-serialising the divider payloads and refreshing the channel lengths touch different fields *)
+Lemma renorm_upd_recs rs : forall cs, map renorm_rec (upd_recs rs cs) = upd_recs (map renorm_rec rs) cs.
+Proof.
+  induction rs as [|r rs IH]; intros [|c cs]; cbn [upd_recs map]; try reflexivity.
+  rewrite IH. reflexivity.
+Qed.
+Lemma api_norm_after_write d : api_norm (psd_after_write d) = psd_after_write (api_norm d).
+Proof.
+  unfold api_norm, psd_after_write, lami_after_write. cbn [p_header p_cmd p_res p_lami p_img la_info la_glmi la_blocks].
+  destruct (la_info (p_lami d)) as [li|]; cbn [option_map]; [|reflexivity]. do 2 f_equal. f_equal.
+  destruct li as [count recs chans]. unfold li_after_write. cbn [li_count li_records li_chans].
+  destruct (count =? 0); [reflexivity|].
+  unfold li_update. cbn [li_records li_chans li_count].
+  destruct recs as [[|r rs]|]; cbn [option_map map]; try reflexivity.
+  destruct chans as [[|c cs]|]; cbn [option_map map li_records li_chans li_count]; try reflexivity.
+  change (renorm_rec r :: map renorm_rec rs) with (map renorm_rec (r :: rs)). now rewrite <- renorm_upd_recs.
+Qed.
+Lemma lsct_canonical_after_write d : lsct_canonical d -> lsct_canonical (psd_after_write d).
+Proof. unfold lsct_canonical. intros H. now rewrite api_norm_after_write, H. Qed.
